@@ -22,11 +22,20 @@ def replay():
     from scipy.linalg import expm
     rng = np.random.default_rng(11)
     out = []
-    for _ in range(20):
-        M = rng.normal(size=(2, 2)) + 1j * rng.normal(size=(2, 2))
-        e, lp, lm, ep, em = ad.exp_matrix_2D(M)
+    mats = [rng.normal(size=(2, 2)) + 1j * rng.normal(size=(2, 2)) for _ in range(20)]
+    for kind in ("lower", "upper", "diag"):
+        for _ in range(3):
+            M = rng.normal(size=(2, 2)) + 0j
+            if kind in ("lower", "diag"): M[0, 1] = 0
+            if kind in ("upper", "diag"): M[1, 0] = 0
+            mats.append(M)
+    for M in mats:
+        try:
+            e, lp, lm, ep, em = ad.exp_matrix_2D(M)
+        except Exception as ex:
+            out.append(f"exp_matrix_2D raised {type(ex).__name__} on {M.tolist()}"); continue
         ref = expm(M)
-        if not np.allclose(e, ref, rtol=1e-9, atol=1e-11): out.append("exp_matrix_2D != expm")
+        if not np.allclose(e, ref, rtol=1e-9, atol=1e-11): out.append(f"exp_matrix_2D != expm on {M.tolist()}")
         if not np.allclose(ep @ em, 0, atol=1e-10) or not np.allclose(ep @ ep, ep, atol=1e-10) or not np.allclose(ep + em, np.eye(2), atol=1e-10): out.append("projector algebra")
         if not np.allclose(lp * ep + lm * em, M, atol=1e-10): out.append("spectral reconstruction")
     for dim in (2, 4):
@@ -67,7 +76,17 @@ def run(chk):
     chk.eq("C23.2D.trace", lp + lm, m[0, 0] + m[1, 1], fn=fn2, goal="l+ + l- == tr M", replay=rp)
     chk.eq("C23.2D.det", lp * lm, m[0, 0] * m[1, 1] - m[0, 1] * m[1, 0], fn=fn2, goal="l+ l- == det M", replay=rp)
     chk.eq_array("C23.2D.exp_is_spectral_sum", exp, em * T.app("exp", lm) + ep * T.app("exp", lp), fn=fn2, goal="exp == e- exp(l-) + e+ exp(l+)", replay=rp)
-    # triangular / diagonal special cases are instances of the same identities (the parametrisation is hypothesis-free)
+    # structured inputs (exact zeros in the off-diagonal): the closed form must not divide by an exact zero
+    for sname, zeros_at in (("upper_triangular", [(1, 0)]), ("lower_triangular", [(0, 1)]), ("diagonal", [(0, 1), (1, 0)])):
+        ms = m.copy()
+        for idx in zeros_at:
+            ms[idx] = Q(0)
+        for pt, pc, res in chk.run_paths(f"C23.2D.{sname}", lambda: ad.exp_matrix_2D(ms), [], fn=fn2, replay=rp, goal="no exception on a triangular / diagonal matrix with distinct eigenvalues"):
+            e_, lp_, lm_, ep_, em_ = res
+            chk.eq_array(f"{pt}.reconstruct", lp_ * ep_ + lm_ * em_, ms, fn=fn2, goal="M == l+ e+ + l- e-", replay=rp)
+            chk.eq_array(f"{pt}.complete", ep_ + em_, I2, fn=fn2, goal="e+ + e- == 1", replay=rp)
+            chk.eq_array(f"{pt}.ep_em_zero", ep_ @ em_, Z2, fn=fn2, goal="e+ e- == 0", replay=rp)
+            chk.eq_array(f"{pt}.exp_is_spectral_sum", e_, em_ * T.app("exp", lm_) + ep_ * T.app("exp", lp_), fn=fn2, goal="exp == e- exp(l-) + e+ exp(l+)", replay=rp)
 
     # exp_matrix, dims 2 and 4 relative to the eig contract
     for dim in (2, 4):
